@@ -90,6 +90,9 @@ func ExecSched(sc sim.Script) *sim.Outcome {
 						}
 						if r.hit {
 							r.val = render(v)
+							if s.Scribble {
+								scribble(v) // what a hit returns belongs to the caller
+							}
 						}
 					}
 				case "bgetc": // BlockCache.Get / Set on a block that IS being committed: judged by the race / panic clauses only
@@ -105,6 +108,9 @@ func ExecSched(sc sim.Script) *sim.Outcome {
 						v, r.hit = b.bc.Get(op.Y)
 						if r.hit {
 							r.val = render(v)
+							if s.Scribble {
+								scribble(v)
+							}
 						}
 					} else {
 						r.skip = true // a block cache is not used once its block is (being) committed
